@@ -446,7 +446,7 @@ fn check_cmd(id: &str, tier: &str, verif_seed: u64) -> i32 {
     let mut new_violations = 0;
     let mut known_hit: BTreeMap<String, u64> = BTreeMap::new();
     let mut replays = vec![];
-    let _ = std::fs::create_dir_all("/verif/replays");
+    let _ = std::fs::create_dir_all(format!("{}/replays", crate::out_root()));
     for (sig, list) in &by_sig {
         // minimise up to 3 instances per signature (different instances may reduce to different shapes)
         let mut shapes_seen: BTreeSet<String> = BTreeSet::new();
@@ -465,7 +465,7 @@ fn check_cmd(id: &str, tier: &str, verif_seed: u64) -> i32 {
             }
             // new violation: write replay file, confirm in a fresh process
             let (j, res, eff) = judge(id, &min, hs);
-            let path = format!("/verif/replays/{id}-{:016x}-{}.json", rng::hash_str(&format!("{sig}|{shape}")), v.run_seed);
+            let path = format!("{}/replays/{id}-{:016x}-{}.json", crate::out_root(), rng::hash_str(&format!("{sig}|{shape}")), v.run_seed);
             let rf = ReplayFile {
                 property: id.into(),
                 signature: sig.clone(),
@@ -562,7 +562,7 @@ fn write_evidence(
     wall: f64,
     note: Option<&str>,
 ) {
-    let _ = std::fs::create_dir_all("/verif/evidence");
+    let _ = std::fs::create_dir_all(format!("{}/evidence", crate::out_root()));
     let mut samples = st.samples.clone();
     samples.truncate(3);
     if samples.is_empty() {
@@ -609,7 +609,7 @@ fn write_evidence(
         "wall_s": wall,
         "violations": violations,
     });
-    std::fs::write(format!("/verif/evidence/{id}.json"), serde_json::to_string_pretty(&ev).unwrap()).unwrap();
+    std::fs::write(format!("{}/evidence/{id}.json", crate::out_root()), serde_json::to_string_pretty(&ev).unwrap()).unwrap();
 }
 
 fn replay_cmd(path: &str) -> i32 {
@@ -762,6 +762,12 @@ fn show_cmd(id: &str, run_no: u64, verif_seed: u64) -> i32 {
         eprintln!("--- output\n{}", wasmprinter::print_bytes(b).unwrap_or_else(|e| format!("unprintable: {e}")));
     }
     0
+}
+
+/// Where evidence and replay files go: /verif unless VERIF_OUT names another directory (used by
+/// background sweeps so that they do not overwrite the evidence of the registered checks).
+pub fn out_root() -> String {
+    std::env::var("VERIF_OUT").ok().filter(|s| !s.is_empty()).unwrap_or_else(|| "/verif".to_string())
 }
 
 fn main() {
